@@ -289,8 +289,9 @@ let gen_script r ~clean =
        | 3 -> line := Z.of_int (rand_int r 100000)
        | 4 -> line := Z.max Z.zero (Z.add !line (Z.of_int (h.lb + rand_int r (h.lr + 2) - 1)))
        | 5 -> line := Z.of_int (rand_int r 3)
-       | 6 -> line := if clean then Z.of_int (rand_int r 0x7fffffff) else Z.rem (rand_z64 r) (p2 63)
+       | 6 -> line := if rand_int r 3 = 0 then Z.of_int (rand_int r 0x7fffffff) else if rand_bool r then rand_z64 r else boundary_z64 r
        | _ -> line := Z.add !line (Z.of_int (rand_int r 20)));
+      line := Z.min !line (Z.pred (p2 64));
       if rand_int r 4 = 0 then col := small_u64 r;
       if rand_int r 8 = 0 then isa := small_u64 r;
       if rand_int r 5 = 0 then stmt := not !stmt;
@@ -299,15 +300,16 @@ let gen_script r ~clean =
       let disc = if rand_int r 4 = 0 then small_u64 r else Z.zero in
       push (Row { ao = !ao; opi = Z.of_int !opi; fileh = !fileh; line = !line; col = !col; disc; stmt = !stmt;
                   bb = rand_int r 5 = 0; pe = rand_int r 6 = 0; eb = rand_int r 7 = 0; isa = !isa });
-      (* mid-sequence set_address (only at op_index 0: see known finding) *)
-      if rand_int r 7 = 0 && !opi = 0 && !room_i > 1000 then begin
+      (* mid-sequence set_address, at any op_index (resets op_index) *)
+      if rand_int r 7 = 0 && !room_i > 1000 then begin
         let cur = Z.add !cur_base !ao in
         let bump = rand_int r (min 500 (!room_i / 4)) in
         let na = Z.add cur (Z.of_int bump) in
         (* new base such that base' + (ao - ao_at_set) continues from `na` *)
         cur_base := Z.sub na !ao;
         room_i := !room_i - bump;
-        push (SetAddr (1, na))
+        push (SetAddr (1, na));
+        opi := 0   (* DW_LNE_set_address resets op_index: the next row may use any op_index *)
       end;
       if rare 50 then add_tables 1
     done;
@@ -334,39 +336,48 @@ let () =
           ("c13.prog " ^ tok_script h ops, fun dbg -> show_script (eval_script dbg h ops)))
       done)
 
-(* ---------------------------------------------------------------- witness families of known findings *)
+(* ---------------------------------------------------------------- former witness families, now ordinary cases *)
 let () =
-  register "c13.known" ~doc:"families of inputs inside the documented preconditions on which the writer is known to fail (see known_findings.txt); expected = a program that reads back"
+  register "c13.edge" ~doc:"inputs on which the writer used to fail before fixes 4a025e8 / c8c5891 / 64c2c71: line numbers >= 2^63 (deltas beyond i64), operation advance x line_range overflowing u64, set_address in the middle of a VLIW instruction; model bytes + read-back oracle"
     (fun ~seed ~n emit ->
       let r = mk_rng seed in
       let h0 = grid_hdr (-5) 14 1 1 4 in
-      let out fam h ops = emit (Printf.sprintf "c13.known %d %s" fam (tok_script h ops)) "ok" "ok" in
+      let out h ops = both emit ("c13.edge " ^ tok_script h ops) (fun dbg -> show_script (eval_script dbg h ops)) in
       for _ = 1 to n do
-        (* family 1: line numbers >= 2^63 *)
+        (* line numbers >= 2^63, up and down *)
         let big = Z.add (p2 63) (Z.of_int (rand_int r 1000)) in
         let l0 = Z.of_int (1 + rand_int r 100) in
-        out 1 h0 [ Begin (Some (1, Z.of_int 0x1000)); Row (plain_row Z.zero Z.zero l0);
-                   Row (plain_row (Z.of_int 4) Z.zero (if rand_bool r then big else Z.pred (p2 64)));
-                   End (Z.of_int 8, Z.zero) ];
-        (* family 2: operation advance x line_range overflows u64 *)
-        let lr = pick r [| 14; 2; 10; 100 |] in
+        let top = if rand_bool r then big else Z.pred (p2 64) in
+        out h0 [ Begin (Some (1, Z.of_int 0x1000)); Row (plain_row Z.zero Z.zero l0);
+                 Row (plain_row (Z.of_int 4) Z.zero top);
+                 Row (plain_row (Z.of_int 5) Z.zero (Z.of_int (rand_int r 3)));
+                 Row (plain_row (Z.of_int 6) Z.zero (Z.sub top (Z.of_int (rand_int r 20))));
+                 End (Z.of_int 8, Z.zero) ];
+        (* operation advance x line_range overflows u64 *)
+        let lr = pick r [| 14; 2; 10; 100; 255 |] in
         let h = grid_hdr (-1) lr 1 1 4 in
         let oadv = Z.add (Z.div (p2 64) (Z.of_int lr)) (Z.of_int (1 + rand_int r 3)) in
-        out 2 h [ Begin (Some (1, Z.of_int 0x10)); Row (plain_row Z.zero Z.zero (Z.of_int 7));
-                  Row (plain_row oadv Z.zero (Z.of_int 7)); End (Z.succ oadv, Z.zero) ];
-        (* family 3: set_address in the middle of a VLIW instruction (op_index <> 0) *)
+        out h [ Begin (Some (1, Z.of_int 0x10)); Row (plain_row Z.zero Z.zero (Z.of_int 7));
+                Row (plain_row oadv Z.zero (Z.of_int (7 + rand_int r 3))); End (Z.succ oadv, Z.zero) ];
+        (* set_address in the middle of a VLIW instruction (op_index <> 0) *)
         let mops = pick r [| 2; 4 |] in
         let h = grid_hdr (-5) 14 1 mops 4 in
         let k = 1 + rand_int r (mops - 1) in
-        out 3 h [ Begin (Some (1, Z.of_int 0x1000)); Row (plain_row Z.zero (Z.of_int k) (Z.of_int 7));
-                  SetAddr (1, Z.of_int 0x2000); Row (plain_row (Z.of_int 1) Z.zero (Z.of_int 8));
-                  End (Z.of_int 2, Z.zero) ];
-        (* family 4: address advance x maximum_operations_per_instruction overflows u64 (op_advance) *)
+        out h [ Begin (Some (1, Z.of_int 0x1000)); Row (plain_row Z.zero (Z.of_int k) (Z.of_int 7));
+                SetAddr (1, Z.of_int 0x2000); Row (plain_row (Z.of_int 1) Z.zero (Z.of_int 8));
+                Row (plain_row (Z.of_int 1) (Z.of_int k) (Z.of_int 8));
+                End (Z.of_int 2, Z.zero) ]
+      done);
+  register "c13.known" ~doc:"family of inputs inside the documented preconditions on which the writer is known to fail (known_findings.txt): address advance x maximum_operations_per_instruction overflows u64 in op_advance; expected = a program that reads back"
+    (fun ~seed ~n emit ->
+      let r = mk_rng seed in
+      for _ = 1 to n do
         let mops = pick r [| 2; 4 |] in
         let h = grid_hdr (-5) 14 1 mops 4 in
         let ao = Z.add (Z.div (p2 64) (Z.of_int mops)) (Z.of_int (rand_int r 3)) in
-        out 4 h [ Begin (Some (1, Z.of_int 0x10)); Row (plain_row Z.zero Z.zero (Z.of_int 7));
-                  Row (plain_row ao Z.zero (Z.of_int 7)); End (Z.succ ao, Z.zero) ]
+        emit (Printf.sprintf "c13.known 4 %s" (tok_script h
+                [ Begin (Some (1, Z.of_int 0x10)); Row (plain_row Z.zero Z.zero (Z.of_int 7));
+                  Row (plain_row ao Z.zero (Z.of_int 7)); End (Z.succ ao, Z.zero) ])) "ok" "ok"
       done)
 
 let init () = ()
